@@ -87,6 +87,8 @@ type checker struct {
 	ev *Evaluator
 	// complete[input key + "\x00" + lang]: the complete configuration product of that language was evaluated for the input
 	complete map[string]bool
+	// partial: "complete" only for the sub-combinations of one failing configuration (on-demand down-set)
+	partial map[string]bool
 	// space[lang]: the configuration product of that language
 	space     map[string][]Cfg
 	all       []*Case
@@ -170,6 +172,7 @@ func (ck *checker) markComplete(inputs []*Input) {
 			}
 			if ok {
 				ck.complete[in.Key()+"\x00"+lang] = true
+				delete(ck.partial, in.Key()+"\x00"+lang)
 			}
 		}
 	}
@@ -271,7 +274,10 @@ type failureSet struct {
 func (ck *checker) failures() failureSet {
 	fs := failureSet{byKey: map[string]*Case{}, needed: map[string][]*Case{}}
 	condCache := map[string]condInfo{}
-	table := map[string][]condInfo{} // lang + diag -> conditions seen on inputs with a complete product
+	// lang + diag -> conditions seen on inputs with the complete product (tableFull) / with at least the
+	// down-set of one failing configuration (table)
+	table := map[string][]condInfo{}
+	tableFull := map[string][]condInfo{}
 	own := func(c *Case, dk string) condInfo {
 		k := c.In.Key() + "\x00" + c.Cfg.Lang + "\x00" + dk
 		ci, ok := condCache[k]
@@ -297,10 +303,31 @@ func (ck *checker) failures() failureSet {
 			if !dup {
 				table[tk] = append(table[tk], ci)
 			}
+			if !ck.partial[c.In.Key()+"\x00"+c.Cfg.Lang] {
+				dup = false
+				for _, x := range tableFull[tk] {
+					if x.text == ci.text {
+						dup = true
+					}
+				}
+				if !dup {
+					tableFull[tk] = append(tableFull[tk], ci)
+				}
+			}
 		}
 	}
-	for k := range table {
-		sort.Slice(table[k], func(i, j int) bool { return table[k][i].text < table[k][j].text })
+	for _, t := range []map[string][]condInfo{table, tableFull} {
+		for k := range t {
+			sort.Slice(t[k], func(i, j int) bool { return t[k][i].text < t[k][j].text })
+		}
+	}
+	lookup := func(t map[string][]condInfo, c *Case, d Diag) string {
+		for _, ci := range t[c.Cfg.Lang+"\x00"+d.Key()] {
+			if ci.compatible(c.Cfg) {
+				return ci.text
+			}
+		}
+		return ""
 	}
 	for _, c := range ck.all {
 		if len(c.Diags) == 0 {
@@ -315,15 +342,19 @@ func (ck *checker) failures() failureSet {
 		}
 		for _, d := range c.Diags {
 			cond := ""
+			ik := c.In.Key() + "\x00" + c.Cfg.Lang
 			switch {
-			case ck.complete[c.In.Key()+"\x00"+c.Cfg.Lang]:
+			case ck.complete[ik] && !ck.partial[ik]:
 				cond = own(c, d.Key()).text
+			case ck.complete[ik]:
+				// only sub-combinations of one failing configuration were evaluated: the condition of
+				// the same diagnostic on a complete product is more informative when it covers this case
+				if cond = lookup(tableFull, c, d); cond == "" {
+					cond = own(c, d.Key()).text
+				}
 			default:
-				for _, ci := range table[c.Cfg.Lang+"\x00"+d.Key()] {
-					if ci.compatible(c.Cfg) {
-						cond = ci.text
-						break
-					}
+				if cond = lookup(tableFull, c, d); cond == "" {
+					cond = lookup(table, c, d)
 				}
 				if cond == "" {
 					fs.needed[c.Cfg.Lang+": "+d.Key()] = append(fs.needed[c.Cfg.Lang+": "+d.Key()], c)
@@ -444,7 +475,11 @@ func (ck *checker) minimise(maxRounds int) (rounds int, stable bool) {
 						cases = append(cases, &Case{In: l[i].In, Cfg: cfg, Part: "product"})
 					}
 				}
-				ck.complete[l[i].In.Key()+"\x00"+l[i].Cfg.Lang] = true
+				ik := l[i].In.Key() + "\x00" + l[i].Cfg.Lang
+				if !ck.complete[ik] && l[i].Cfg.Lang == "go" {
+					ck.partial[ik] = true
+				}
+				ck.complete[ik] = true
 			}
 		}
 		ck.products += goProducts
@@ -486,7 +521,7 @@ func main() {
 	ws := genrun.NewWorkspace("c02")
 	defer ws.Close()
 	ev := newEvaluator(ws, scan)
-	ck := &checker{r: r, ev: ev, complete: map[string]bool{}, pkeys: map[string][]string{}, space: map[string][]Cfg{"go": allGoCfgs()}}
+	ck := &checker{r: r, ev: ev, complete: map[string]bool{}, partial: map[string]bool{}, pkeys: map[string][]string{}, space: map[string][]Cfg{"go": allGoCfgs()}}
 	for _, c := range partBCfgs(r.Thorough()) {
 		if c.Lang != "go" {
 			ck.space[c.Lang] = append(ck.space[c.Lang], c)
